@@ -422,7 +422,31 @@ func checkVolatile(c *core.Ctx, rule string) {
 					}
 				}
 			}
-			c.Check(okw, rule, key, begin.Pos(), "block-local: (re)assigned in BeginBlock/Commit before use", "classified as block-local but BeginBlock/Commit do not reset it")
+			// the reset must be a reset: a store that only happens when the field is still unset
+			// (`if f == nil { f = make(…) }`) initialises once and keeps the previous block's content
+			lazy, nW := true, 0
+			for _, w := range c.FieldWrites(bc, fld) {
+				if w.Fn != begin && w.Fn != commit && w.Fn != calc {
+					continue
+				}
+				nW++
+				all := true
+				for _, g := range core.GatesBefore(w.Instr) {
+					if core.DependsOn(g.If.Cond, func(v ssa.Value) bool {
+						fa, ok := v.(*ssa.FieldAddr)
+						return ok && fieldNameOf(fa) == fld
+					}) {
+						all = false
+					}
+				}
+				if all {
+					lazy = false // an unconditional (not self-gated) reset exists
+				}
+			}
+			if nW == 0 {
+				lazy = false // reset in place (SetInt64) or by atomic store: handled by okw
+			}
+			c.Check(okw && !lazy, rule, key, begin.Pos(), "block-local: (re)assigned in BeginBlock/Commit before use", "classified as block-local but BeginBlock/Commit do not reset it on every block (the assignment is missing, or happens only while the field is still unset): it carries the previous block's content into the next block — and nothing after a restart")
 		}
 	}
 	c.Floor(rule, n, 30, "fields of minter.Blockchain")
